@@ -104,6 +104,13 @@ theorem stepWorld_ok {k : Key2} {m : Int} (hm : 0 ≤ m) {s : Sim} (hI : SInv k 
         simp only [hne, if_false] at he
         subst he
         exact hX e0 h0
+  | jobGone k' =>
+    simp only [stepWorld]
+    split
+    · exact ⟨⟨hW, p, hX⟩, Past.refl k _⟩
+    · split
+      · exact fr _ (by rfl) (by rfl) (by rfl)
+      · exact ⟨⟨hW, p, hX⟩, Past.refl k _⟩
   | noop => exact ⟨⟨hW, p, hX⟩, Past.refl k _⟩
 
 theorem step_inv {k : Key2} {m : Int} (hm : 0 ≤ m) {s : Sim} (hI : SInv k m s) (op : Op) (hop : ∀ n, op ≠ .editMax k n) :
